@@ -80,7 +80,8 @@ HARNESSES = [
      "quick_cases": ["trunc:P1", "junk", "corrupt:P2:214", "corrupt:P9:pe", "trunc:P5"], "opt": True, "timeout": {"quick": 90, "thorough": 300}},
     {"fn": "h_plugin", "cases": ["count0", "count1", "count2", "count3", "body"], "quick_cases": ["count0", "count3"],
      "timeout": {"quick": 120, "thorough": 400}},
-    {"fn": "h_dir", "cases": ["after-good", "before-good"], "timeout": {"quick": 120, "thorough": 400}},
+    {"fn": "h_dir", "cases": ["after-good", "before-good", "two-bad:a", "two-bad:j", "two-bad:l"], "timeout": {"quick": 120, "thorough": 400}},
+    {"fn": "h_text_progress", "cases": ["text", "json"], "timeout": {"quick": 90, "thorough": 300}},
 ]
 BOUNDS = {"short": "all byte strings of length <= 24; 'PH' + 2 symbolic length bytes + 20 symbolic bytes",
           "truncation": "every proper prefix (cut point symbolic, one solver-resolved path per offset) of 9 catalogue PELs "
@@ -122,6 +123,39 @@ def run_parse(data, exit_on_error, budget=20):
         return "exception", repr(e)
     except SystemExit as e:
         return "exit", e.code
+
+
+def h_text_progress() -> bool:
+    """
+    post: _
+    """
+    # prompt termination is also owed to PELs whose text is unusual rather than damaged: a line made of dozens of
+    # backslashes / quotes (UNC paths, regular expressions) goes through the real json module and the real column
+    # alignment under the progress deadline
+    alph = chr(92) + '"' + "a:"
+    c = sym_str("c", 2, alph)
+    tail = None
+    for a1 in alph:
+        for a2 in alph:
+            if tail is None and sym_all([ord(c[0]) == ord(a1), ord(c[1]) == ord(a2)]):
+                tail = a1 + a2
+    line = chr(92) * 30 + tail + "x"
+    if CASE == "text":
+        sect = pb.UD((line + "\nsecond").encode(), sub=3, comp=0x2000)
+    else:
+        import json as realjson
+        sect = pb.UD(realjson.dumps({"path": line, "l": [line]}).encode(), sub=1, comp=0x2000)
+    pel = pb.PEL(sect)
+    cfg = Config()
+    cfg.allow_plugins = False
+    try:
+        with deadline(20 if SYMBOLIC else 10):
+            eid, text = peltool.parsePEL(DataStream(pel, byte_order="big", is_signed=False), cfg, False)
+    except HangDetected as e:
+        return verdict(False, obs={"hang": repr(e)})
+    except Exception as e:
+        return verdict(False, obs={"exception": repr(e)})
+    return verdict(isinstance(text, str) and len(text) > 0, obs={"eid": eid})
 
 
 def h_short() -> bool:
@@ -323,13 +357,29 @@ def h_dir() -> bool:
             bad = full[:cand]
     files = [("a_good", good), ("b_bad", bad)] if CASE == "after-good" else [("a_bad", bad), ("b_good", good)]
     rev = bool(sym_bool("reverse"))
-    w = World(files=files)
-    ns = Namespace(**dict(ARG_DEFAULTS, path="/pels", all=True, reverse=rev, every_pel=True, skip_plugins=True))
+    mode = dict(all=True)
+    if CASE.startswith("two-bad"):
+        # several damaged files in one directory: still an ordinary run (exit status 0), one diagnostic per file
+        files = [("a_bad", bad), ("b_good", good), ("c_bad", full[:100]), ("d_bad", b"")]
+        mode = {"a": dict(all=True), "j": dict(json=True, output_dir="/out"), "l": dict(list=True)}[CASE.split(":")[1]]
+    w = World(files=files, dirs=["/out"])
+    ns = Namespace(**dict(ARG_DEFAULTS, path="/pels", reverse=rev, every_pel=True, skip_plugins=True, **mode))
+    from vlib.stubs import WorldUnsupported
     try:
         with deadline(30 if SYMBOLIC else 10):
             status = run_main(peltool, w, ns)
+    except WorldUnsupported:
+        raise
     except BaseException as e:
         return verdict(False, obs={"escaped": repr(e)})
+    if CASE.startswith("two-bad") and not mode.get("all"):
+        if mode.get("json"):
+            docs = [e[2].obj for e in w.events if e[0] == "write" and hasattr(e[2], "obj")]
+            ok = len(docs) == 1 and docs[0]["Private Header"]["Entry Id"] == "0x50000011"
+        else:
+            docs = [o.obj for o in w.stdout() if hasattr(o, "obj")]
+            ok = len(docs) == 1 and list(docs[0].keys()) == ["0x50000011"]
+        return verdict(sym_all([status == 0, ok, len(w.stderr()) >= 1]), obs={"status": status, "stderr": len(w.stderr())})
     docs = [o.obj for o in w.stdout() if hasattr(o, "obj")]
     conds = [status == 0, len(docs) == 1, len(w.stderr()) >= 1]
     if len(docs) == 1:
